@@ -440,6 +440,9 @@ class Fn:
             fname = f.id
         elif isinstance(f, ast.Attribute) and isinstance(f.value, ast.Name) and f.value.id == self.unit.cur_cls:
             fname = f.attr       # ClassName.static_method(...)
+        elif isinstance(f, ast.Attribute) and isinstance(f.value, ast.Name) and f.value.id == "self" and self.unit.cur_cls \
+                and self.unit.method_alias.get((self.unit.cur_cls, f.attr)) in self.unit.sigs:
+            fname = self.unit.method_alias[(self.unit.cur_cls, f.attr)]       # self.method(...) of the same class, itself translated
         # ---- builtins
         if isinstance(f, ast.Name) and fname not in self.unit.sigs:
             args = n.args
@@ -510,8 +513,17 @@ class Fn:
         sig = self.unit.sigs[fname]
         if sig.ret is None:
             fail(n, f"call of '{fname}', whose translation failed")
+        read_args = []
         if getattr(sig, "reads", None):
-            fail(n, f"call of '{fname}', which takes attribute reads as inputs")
+            # the callee reads object attributes / data rows: the caller reads the same ones (same object, same bar) and hands them on
+            if getattr(sig, "state", None):
+                fail(n, f"call of '{fname}', which updates object fields")
+            table = {nm: ty for nm, ty in self.unit.cur_reads.values()}
+            for nm, ty in sig.reads:
+                if table.get(nm) != ty:
+                    fail(n, f"call of '{fname}': its input '{nm}' is not an input of the calling function's read table")
+                self.used_reads[nm] = ty
+                read_args.append(nm)
         if len(n.args) != len(sig.params):
             fail(n, f"call of {fname} with {len(n.args)} arguments (expects {len(sig.params)})")
         terms = []
@@ -525,7 +537,7 @@ class Fn:
         if sig.uses_pow:
             self.uses_pow = True
             cxs += "dpow "
-        return self.effect(ind, f"{sig.lean_name} {cxs}" + " ".join(terms), sig.ret)
+        return self.effect(ind, f"{sig.lean_name} {cxs}" + " ".join(read_args + terms), sig.ret)
 
     def quantize(self, n, env, ind):
         """`x.quantize(Decimal(f"1e{k}") | Decimal(<int or "literal">) [, rounding=decimal.ROUND_*])`  ↦  `Py.quantize mode x k`"""
@@ -783,6 +795,11 @@ class Fn:
         want = env[names[0].id] if not isinstance(tg, ast.Tuple) else ("tuple", [env[e.id] for e in names])
         if isinstance(ta, str) and isinstance(want, str) and {ta, want} == {"dec", "dec0"}:
             env[names[0].id] = want = ta = "dec0"      # Decimal on one path, int-or-Decimal on the other
+        if isinstance(want, tuple) and want[0] == "opt" and not isinstance(tg, ast.Tuple):
+            if ta == want[1]:
+                a, ta = f"(some {a})", want             # an Optional variable given a value
+            elif ta == "none":
+                ta = want
         if ta != want:
             fail(s, f"conditional assignment changes the type of {[e.id for e in names]}")
         for e in names:
@@ -959,6 +976,7 @@ class Unit:
         self.reads = reads or {}
         self.auto_consts = {}
         self.cur_reads, self.cur_cls, self.cur_state, self.cur_opts = self.reads, self.cls, self.state, {}
+        self.method_alias = {}
         self.uses = []           # other units whose translated functions may be called (their generated module is imported)
         self.sigs = {}
         self.const_values = {}
@@ -1038,6 +1056,13 @@ class Unit:
                         from fractions import Fraction
                         out[tg.id] = (f"({const_value(v.args[0])} : Rat)", "dec")       # Decimal(<constant int expression>): exact
                         self.const_values[tg.id] = Fraction(const_value(v.args[0]))
+                    elif isinstance(v, ast.Call) and getattr(v.func, "id", None) == "Decimal" and len(v.args) == 1 \
+                            and isinstance(v.args[0], ast.Constant) and type(v.args[0].value) is float and v.args[0].value == v.args[0].value \
+                            and abs(v.args[0].value) != float("inf"):
+                        from fractions import Fraction
+                        fr = Fraction(v.args[0].value)                                   # Decimal(<float literal>) is the float's exact binary value
+                        out[tg.id] = (f"(({fr.numerator} : Rat) / ({fr.denominator} : Rat))" if fr.denominator != 1 else f"({fr.numerator} : Rat)", "dec")
+                        self.const_values[tg.id] = fr
                     else:
                         raise ShapeError(f"constant {tg.id} is not an int / Decimal literal")
         return out
@@ -1053,6 +1078,7 @@ class Unit:
         # an entry of `funcs` is (name, {param: type}) or (name, {param: type}, opts): opts may give this function its own class ("cls"),
         # read table ("reads"), fields ("state"), generated name ("as") and switches ("return_in_for")
         entries = [(f[0], f[1], (f[2] if len(f) > 2 else {})) for f in self.funcs]
+        self.method_alias = {(o.get("cls", self.cls), n): o.get("as", n) for n, pt, o in entries}
         self.funcs = [(o.get("as", n), pt) for n, pt, o in entries]
         for (n, pt, o) in entries:
             key = o.get("as", n)
@@ -1092,6 +1118,7 @@ class Unit:
                 lines, ret, uses_cx, uses_pow = fn.translate()
                 sig.ret, sig.uses_cx, sig.uses_pow = ret, uses_cx, uses_pow
                 sig.reads = [(nm, ty) for nm, ty in self.cur_reads.values() if nm in fn.used_reads] + list(self.cur_state.values())
+                sig.state = dict(self.cur_state)
                 binders = ("(cx : NumCtx) " if uses_cx else "") + ("(dpow : Rat → Nat → Rat) " if uses_pow else "") + ("(fuel : Nat) " if fn.uses_fuel else "") \
                     + "".join(f"({nm} : {lean_ty(ty)}) " for nm, ty in sig.reads) + " ".join(f"({p} : {lean_ty(t)})" for p, t in sig.params if t != "obj")
                 head = f"/-- `{self.src}` line {fdef.lineno}: `{(self.cur_cls + '.') if self.cur_cls else ''}{src_name}` -/\ndef {sig.lean_name} {binders} : M ({lean_ty(ret)}) := do"
@@ -1215,6 +1242,23 @@ TRIGGER = Unit("Trigger", "demeter/strategy/trigger.py", [
     ("reset", {}, {"cls": "PeriodTrigger", "as": "period_reset", "state": {"self._next_match": ("next_match", ("opt", TM))}, "reads": {}}),
 ], prefix="trig_")
 UNITS.append(TRIGGER)
+
+
+_SQ_PRICE = {"self.get_twap_price(oSQTH)": ("osqth_price", D)}
+_SQ_VAULT = {"vault.osqth_short_amount": ("short", D), "vault.collateral_amount": ("coll", D), "vault.uni_nft_id": ("nft", ("opt", I))}
+SQUEETH = Unit("SqueethMarket", "demeter/squeeth/market.py", [
+    ("_get_single_liquidation_amount", {"max_input_osqth": D, "max_liquidatable_osqth": D}, {"as": "get_single_liquidation_amount", "reads": _SQ_PRICE}),
+    ("_get_liquidation_result", {"max_osqth_amount": D, "vault_short_amount": D, "vault_collateral_amount": D},
+     {"as": "get_liquidation_result", "reads": _SQ_PRICE}),
+    ("_get_reduce_debt_bounty", {"eth_withdrawn": D, "osqth_reduced": D}, {"as": "get_reduce_debt_bounty", "reads": {"self.get_twap_price(oSQTH)": ("osqth_price", D)}}),
+    ("_get_reduce_debt_result_in_vault", {"vault": "obj", "nft_eth_amount": D, "nft_osqth_amount": D, "pay_bounty": B},
+     {"as": "get_reduce_debt_result_in_vault", "reads": _SQ_PRICE, "state": _SQ_VAULT}),
+    ("get_vault_status", {"vault_key": "obj", "norm_factor": D, "twap_eth_price": ("opt", D)},
+     {"reads": {"self.get_twap_price(WETH)": ("weth_twap", D), "self.vault[vault_key].osqth_short_amount": ("short", D),
+                "self._get_effective_collateral_in_eth(vault_key, norm_factor, twap_eth_price)": ("total_collateral_of_vault", D)}}),
+], cls="SqueethMarket", consts=("MIN_DEPOSIT_AMOUNT", "CR_NUMERATOR", "CR_DENOMINATOR", "REDUCE_DEBT_BOUNTY", "LIQUIDATION_BOUNTY", "INDEX_SCALE"),
+    prefix="sq_", allow_defaults=True)
+UNITS.append(SQUEETH)
 
 
 BASELINE = os.path.join(os.path.dirname(os.path.abspath(__file__)), "gen_baseline")
